@@ -3,6 +3,7 @@ use super::vkl::*;
 use super::*;
 use crate::layer::vkl::*;
 use crate::layer::LayersData;
+use crate::{BlendMode, LayerType, TilesetsById};
 use crate::vklib::*;
 
 fn cel_header(ty: u16) {
@@ -20,7 +21,8 @@ fn cel_header(ty: u16) {
     }
     let c = match parse_chunk(&buf, PixelFormat::Rgba) {
         Ok(c) => c,
-        Err(_) => {
+        Err(e) => {
+            core::mem::forget(e);
             assert!(false, "well-formed cel chunk decodes");
             return;
         }
